@@ -145,7 +145,8 @@ class InlineMethod(_Inliner):
             resources = self.project.get_python_files()
         if only_current:
             resources = [self.original]
-            if remove:
+            if remove and self.resource.project == self.project:
+                # (a definition outside the project is never touched)
                 resources.append(self.resource)
         job_set = task_handle.create_jobset("Collecting Changes", len(resources))
         for file in resources:
